@@ -18,15 +18,15 @@ func NewModelServer(model *Model) *ModelServer {
 	return &ModelServer{model: model}
 }
 
-func (s *ModelServer) GetButtonState(ctx context.Context, request *traits.GetPressedStateRequest) (*traits.PressedState, error) {
+func (s *ModelServer) GetPressedState(ctx context.Context, request *traits.GetPressedStateRequest) (*traits.PressedState, error) {
 	return s.model.GetPressedState(resource.WithReadMask(request.ReadMask)), nil
 }
 
-func (s *ModelServer) UpdateButtonState(ctx context.Context, request *traits.UpdatePressedStateRequest) (*traits.PressedState, error) {
+func (s *ModelServer) UpdatePressedState(ctx context.Context, request *traits.UpdatePressedStateRequest) (*traits.PressedState, error) {
 	return s.model.UpdatePressedState(request.PressedState, resource.WithUpdateMask(request.UpdateMask))
 }
 
-func (s *ModelServer) PullButtonState(request *traits.PullPressedStateRequest, server traits.PressApi_PullPressedStateServer) error {
+func (s *ModelServer) PullPressedState(request *traits.PullPressedStateRequest, server traits.PressApi_PullPressedStateServer) error {
 	changes := s.model.PullPressedState(server.Context(),
 		resource.WithReadMask(request.ReadMask),
 		resource.WithUpdatesOnly(request.UpdatesOnly),
